@@ -532,8 +532,15 @@ class Run(object):
             return FALSE
         if isinstance(v, OptV):
             return And(Not(v.isnone), self.truth(st, v.val))
+        if isinstance(v, ObjV) and v.cls == "builtins.dict":
+            # a dictionary is true iff it has a key
+            return Ne(Len(self.dict_keyseq(st, v)), I(0))
+        if isinstance(v, ObjV) and v.cls is None:
+            # an opaque reference (a dictionary value, a boxed scalar): its truth value is not known
+            UFS["truthy"] = ([REF], BOOL)
+            return App("truthy", (v.term,), BOOL)
         if isinstance(v, ObjV):
-            return TRUE
+            return TRUE  # an instance of a class without __bool__ / __len__
         if isinstance(v, FuncV):
             return TRUE  # a function or bound method object is always true
         if isinstance(v, RecV):
